@@ -1,7 +1,83 @@
+import MesonModel.Template.Model
 import Driver.Proto
-/- driver commands of area `template` (stub until the area is built) -/
+/- driver commands of area `template` (C14) -/
 namespace Driver.Template
+open MesonModel.Template Driver
 
-def handle (cmd : String) (fs : List String) : String := "bad-op"
+/-- fuel given to the cmake scanner; the harness classes an implementation run that performs more
+than this many variable look-ups in one call as "does not return" -/
+def cmakeFuel : Nat := 6000
+
+def parseVal (t payload : String) : Val :=
+  if t == "s" then .str (decodeStr payload)
+  else if t == "i" then .int (payload.trimAscii.toString.toInt?.getD 0)
+  else .bool (payload.trimAscii.toString == "1")
+
+/-- data field: items `key:type:payload:descflag:desc` separated by `,` -/
+def parseEntries (f : String) : List Entry :=
+  if f.trimAscii.isEmpty then [] else
+    (f.splitOn ",").filterMap fun item =>
+      match item.splitOn ":" with
+      | [k, t, p, df, ds] => some ⟨decodeStr k, parseVal t p, if df == "1" then some (decodeStr ds) else none⟩
+      | [k, t, p] => some ⟨decodeStr k, parseVal t p, none⟩
+      | _ => none
+
+def parseData (f : String) : Data := (parseEntries f).map fun e => (e.key, e.val)
+
+/-- list of lines: items separated by `,`, each item prefixed with `=` so that empty strings survive -/
+def parseLines (f : String) : List (List Char) :=
+  (f.splitOn ",").filterMap fun item =>
+    if item.startsWith "=" then some (decodeStr (item.drop 1).toString) else none
+
+def showLines (l : List (List Char)) : String := ",".intercalate (l.map fun s => "=" ++ encodeStr s)
+
+def parseFormat (f : String) : Format :=
+  if f == "cmake" then .cmake else if f == "cmake@" then .cmakeAt else .meson
+
+def showErr : Err → String
+  | .defineTokens => "ERR:MesonException:tokens"
+  | .formatError => "ERR:MesonException:format"
+  | .invalidChar => "ERR:MesonException:invalid"
+  | .incomplete => "ERR:MesonException:incomplete"
+  | .indexError => "ERR:IndexError"
+  | .fuel => "ERR:HANG"
+
+/-- insertion sort + dedup on encoded strings (canonical form of a Python set of names) -/
+def canonNames (l : List Name) : String :=
+  let enc := l.map encodeStr
+  let sorted := enc.toArray.qsort (· < ·) |>.toList
+  ",".intercalate ((sorted.eraseDups).map fun s => "=" ++ s)
+
+def showSeg (off : Nat) (s : Seg) : Option String :=
+  let e := off + s.src.length
+  match s with
+  | .lit _ => none
+  | .esc _ => some s!"E:{off}:{e}"
+  | .var _ => some s!"V:{off}:{e}"
+  | .escaped _ => some s!"X:{off}:{e}"
+
+def showSegs : Nat → List Seg → List String
+  | _, [] => []
+  | off, s :: r => (match showSeg off s with | some t => [t] | none => []) ++ showSegs (off + s.src.length) r
+
+def handle (cmd : String) (fs : List String) : String :=
+  match cmd, fs with
+  | "seg", [l] => " ".intercalate (showSegs 0 (segments (decodeStr l)))
+  | "subm", [d, l] =>
+    let dd := parseData d; let s := decodeStr l
+    s!"{encodeStr (substMeson dd s)}|{canonNames (missingMeson dd s)}"
+  | "conf", [fmt, d, ls] =>
+    match confStr (parseFormat fmt) (parseData d) cmakeFuel (parseLines ls) with
+    | .error e => showErr e
+    | .ok o => s!"OK|{showLines o.lines}|{canonNames o.missing}|{boolStr o.useless}"
+  | "file", [fmt, d, t] =>
+    match confFile (parseFormat fmt) (parseData d) cmakeFuel (decodeStr t) with
+    | .error e => showErr e
+    | .ok (txt, m, u) => s!"OK|{encodeStr txt}|{canonNames m}|{boolStr u}"
+  | "split", [t] => showLines (splitLines (decodeStr t))
+  | "hdr", [f, mf, m, es] =>
+    let hf := if f == "nasm" then HdrFormat.nasm else HdrFormat.c
+    encodeStr (dumpHeader hf (if mf == "1" then some (decodeStr m) else none) (parseEntries es))
+  | _, _ => "bad-op"
 
 end Driver.Template
